@@ -644,6 +644,11 @@ def run_probe(c):
         if bad:
             t = bad[0]
             as_mech = all(abs(got[i] - mech[i]) <= tol for i in range(T))
+            if not as_mech and any((got[i] > tol) != (want[i] > tol) for i in range(T)):
+                # the optimum runs the plant at other steps than the probe was built for (e.g. it stays at minimum load instead of
+                # shutting down): the probe states nothing about that schedule
+                r['features'].append('el:probe-schedule-differs')
+                continue
             r['violations'].append({'oracle': 'limits_follow_step_length',
                                     'detail': '%s: volumes per step %s; rate x own length of each step gives %s (step %d, %g h long: %.9g instead of %.9g)%s || input (%s): %s' % (
                                         text, [round(x, 6) for x in got], [round(x, 6) for x in want], t, dth[t], got[t], want[t],
